@@ -91,6 +91,14 @@ impl X509Certificate {
 		})
 	}
 
+	pub fn chain_from_pem(pem_data: &[u8]) -> Result<Vec<Self>, Error> {
+		let chain = X509::stack_from_pem(pem_data)?
+			.into_iter()
+			.map(|inner_cert| X509Certificate { inner_cert })
+			.collect();
+		Ok(chain)
+	}
+
 	pub fn from_pem_native(pem_data: &[u8]) -> Result<native_tls::Certificate, Error> {
 		Ok(native_tls::Certificate::from_pem(pem_data)?)
 	}
